@@ -7,42 +7,41 @@ namespace Utv.C10
 
 /-! ### `parse_data` with excluded keys: closed form and verdict -/
 
-theorem runX_collect (W : World) (n : Nat) (decl : List FieldDecl) (ex : List String) (mx : Option Nat)
+theorem runItems_collect (W : World) (n : Nat) (decl : List FieldDecl) (ex : List String) (mx : Option Nat)
     (hk : capOk mx 0) (o : Opts) (data : Data) :
-    runX W n decl ex ⟨true, mx⟩ o data =
-      if reportsX (parse W n) ⟨true, mx⟩ o decl ex data = [] then .ok (valueX (parse W n) ⟨true, mx⟩ o decl ex data)
-      else .error (.collected (cap mx (reportsX (parse W n) ⟨true, mx⟩ o decl ex data))) := by
-  unfold runX
-  exact ran_finish hk (parseData_ran (parse W n) mx o decl ex [] hk data)
+    runItems W n decl ex ⟨true, mx⟩ o data =
+      if reportsX (parse W n) ⟨true, mx⟩ o decl ex false data = [] then
+        .ok (valueX (parse W n) ⟨true, mx⟩ o decl ex data)
+      else .error (.collected (cap mx (reportsX (parse W n) ⟨true, mx⟩ o decl ex false data))) := by
+  unfold runItems
+  exact ran_finish hk (parseData_ran (parse W n) mx o decl ex false [] hk data)
 
-theorem runX_isError (W : World) (n : Nat) (decl : List FieldDecl) (ex : List String) (o : Opts) (data : Data) :
-    isError (runX W n decl ex .ff o data) = !(reportsX (parse W n) .ff o decl ex data).isEmpty := by
+theorem runItems_isError (W : World) (n : Nat) (decl : List FieldDecl) (ex : List String) (o : Opts) (data : Data) :
+    isError (runItems W n decl ex .ff o data) = !(reportsX (parse W n) .ff o decl ex false data).isEmpty := by
   have hg := parse_good W ⟨true, none⟩ n
-  have hv : isError (runX W n decl ex .ff o data) = isError (runX W n decl ex ⟨true, none⟩ o data) := by
-    unfold runX
-    rcases sim_finish (parseData_sim hg decl ex o data) with ⟨r, hF, hC⟩ | ⟨⟨c, x, hF⟩, c', x', hC⟩
+  have hv : isError (runItems W n decl ex .ff o data) = isError (runItems W n decl ex ⟨true, none⟩ o data) := by
+    unfold runItems
+    rcases sim_finish (parseData_sim hg decl ex false o data) with ⟨r, hF, hC⟩ | ⟨⟨c, x, hF⟩, c', x', hC⟩
     · rw [hF, hC]
     · rw [hF, hC]; rfl
-  rw [hv, runX_collect W n decl ex none trivial, ← reportsX_eq hg]
-  cases reportsX (parse W n) .ff o decl ex data with
+  rw [hv, runItems_collect W n decl ex none trivial, ← reportsX_eq hg]
+  cases reportsX (parse W n) .ff o decl ex false data with
   | nil => rfl
   | cons e es => rfl
-
-theorem run_eq_runX (W : World) (n : Nat) (decl : List FieldDecl) (m : Mode) (o : Opts) (data : Data) :
-    run W n decl m o data = runX W n decl [] m o data := rfl
 
 theorem failsAloneX_iff (W : World) (n : Nat) (decl : List FieldDecl) (ex : List String) (o : Opts) (data : Data)
     (i : String) :
     failsAloneX W n decl ex o data i =
-      (isItem decl data i && !(reportsX (parse W n) .ff o (declOf decl i) ex (dataOf data i)).isEmpty) := by
+      (isItem decl data i && !(reportsX (parse W n) .ff o (declOf decl i) ex false (dataOf data i)).isEmpty) := by
   unfold failsAloneX
-  rw [runX_isError]
+  rw [runItems_isError]
 
 /-- a declaration of one field given exactly that field: rejected iff `parse_value` reports -/
 theorem run_single (W : World) (n : Nat) (f : FieldDecl) (o : Opts) (v : Val) :
-    isError (run W n [f] .ff o [(f.name, v)]) = (repField (parse W n) .ff o f v).isSome := by
-  rw [run_eq_runX, runX_isError]
+    isError (runItems W n [f] [] .ff o [(f.name, v)]) = (repField (parse W n) .ff o f v).isSome := by
+  rw [runItems_isError]
   unfold reportsX
+  rw [countReports_false, List.nil_append]
   by_cases hd : o.dfs = true
   · simp only [hd, if_true]
     rw [reportsDF_eq]
